@@ -69,6 +69,12 @@ def _install():
 
 
 def main():
+    method = os.environ.get("HVSRPY_VERIF_START_METHOD")
+    if method:
+        # the platform default differs (fork on Linux today; spawn on macOS / Windows and on newer Pythons): workers that
+        # are spawned re-import hvsrpy.cli and see nothing the parent set up after import (nor the probe below)
+        import multiprocessing
+        multiprocessing.set_start_method(method, force=True)
     if os.environ.get("HVSRPY_VERIF") == "1":
         _install()
     from hvsrpy.cli import cli
